@@ -66,9 +66,7 @@ package index
 //@   requires in_range [C09]: 0 <= i && i < len(r) && 0 <= j && j < len(r)
 
 //@ func newRecordDigest
-//@   requires valid_cid [C09]: cidvalid(r.Cid)
-//@   panic[0] by_design
-//@   call[multihash.Decode#0] assert decodes [C09]: validmh(bytesval(arg0))
+//@   ensures total [C09]: cidvalid(r.Cid) ==> err == nil
 
 //@ func newRecordFromCid
 //@   requires valid_cid [C09]: cidvalid(c)
